@@ -268,7 +268,8 @@ func c16GenHistory(g *Gen, producer bool) {
 	// the dynamic method in both flavours, each with or without a header value
 	dynamic := r.Chance(42)
 	hdrCfg := r.Chance(40)
-	lines := []string{fmt.Sprintf("cfg cache=%d maxresp=%d limit=%d hdr=%d", b2i(cache), maxresp, limit, b2i(hdrCfg))}
+	xin := r.Chance(35) // the server resolves external-location pointer inputs
+	lines := []string{fmt.Sprintf("cfg cache=%d maxresp=%d limit=%d hdr=%d xin=%d", b2i(cache), maxresp, limit, b2i(hdrCfg), b2i(xin))}
 	kind, initKind := "ex", "ex"
 	if producer {
 		kind, initKind = "pr", "pr"
@@ -403,13 +404,60 @@ func c16GenHistory(g *Gen, producer bool) {
 				schema = "empty"
 			}
 		}
+		// external input: the request batch is a pointer to an object holding the real input batch;
+		// tokens, cancel and user keys go on the pointer batch, on the fetched batch, or on both
+		schemaOKForShadow := producer || schema == "ok" || schema == "cast"
+		if r.Chance(map[bool]int{true: 32, false: 5}[xin]) {
+			var ptr, fet []string
+			tokSide := r.Intn(3) // 0 pointer, 1 fetched, 2 both
+			for _, w := range meta {
+				key := strings.SplitN(w, "=", 2)[0]
+				switch {
+				case key == hx(fwKeyState) || key == hx(fwKeyCall):
+					if tokSide != 1 {
+						ptr = append(ptr, w)
+					}
+					if tokSide != 0 {
+						fet = append(fet, w)
+					}
+				case key == hx(fwKeyCancel):
+					if r.Chance(65) {
+						ptr = append(ptr, w)
+					} else {
+						fet = append(fet, w) // inert there: the turn runs
+						cancelled = false
+					}
+				default:
+					if r.Bool() {
+						ptr = append(ptr, w)
+					} else {
+						fet = append(fet, w)
+					}
+				}
+			}
+			missing := r.Chance(6)
+			switch {
+			case !xin:
+				schemaOKForShadow = true // the zero-row pointer batch itself is the input
+				if tokSide == 1 {
+					presented = false
+				}
+			case missing && !cancelled:
+				presented = false
+			}
+			if missing {
+				meta = append(ptr, "@!")
+			} else {
+				meta = append(append(ptr, "@"), fet...)
+			}
+		}
 		route := kind
 		if r.Chance(4) { // the cursor presented on the other method's continuation route: refused
 			route = Pick(r, map[string][]string{"ex": {"pr", "dyn"}, "pr": {"ex", "dyn"}, "dyn": {"ex", "pr"}}[kind])
 			presented = false
 		}
 		lines = append(lines, fmt.Sprintf("x 0 %s %s %s %s", route, schema, genVals(r, 3), strings.Join(meta, " ")))
-		if presented && callOK && !cancelled && cur < len(toks) && maxresp != 1 && (producer || schema == "ok" || schema == "cast") {
+		if presented && callOK && !cancelled && cur < len(toks) && maxresp != 1 && schemaOKForShadow {
 			if np, ok := shadowTurn(toks[cur].prog, toks[cur].pos, producer, limit); ok {
 				toks = append(toks, shadowTok{np, toks[cur].call, toks[cur].prog})
 			}
